@@ -396,10 +396,10 @@ class Unit:
         self.chunks.append(("fn", w))
         return w
 
-    def stub_of(self, w, extra_requires=(), note=""):
+    def stub_of(self, w, extra_requires=(), note="", extra_ensures=()):
         """Emit another unit's real function as a bodiless stub carrying exactly its woven contract
         (the caller is checked against the callee's contract, not its body)."""
-        self.chunks.append(("stub", w, list(extra_requires)))
+        self.chunks.append(("stub", w, list(extra_requires), list(extra_ensures)))
         self.stubs.append((w.qual(), note))
 
     def real_item(self, rel, item_re, transform=None, note=""):
@@ -461,9 +461,10 @@ class Unit:
                         if lab:
                             info["label"] = lab
                         emit("        %s," % r, info)
-                if w.ensures:
+                ens = list(w.ensures) + [("assumed", e) for e in (ch[3] if len(ch) > 3 else [])]
+                if ens:
                     emit("    ensures", {"kind": "ghost"})
-                    for lab, txt in w.ensures:
+                    for lab, txt in ens:
                         for k, ln in enumerate(txt.split("\n")):
                             emit("        %s%s" % (ln, "," if k == len(txt.split("\n")) - 1 else ""), {"kind": "stubensures", "callee": fq})
                 emit("{ unimplemented!() }", {"kind": "ghost"})
